@@ -190,23 +190,54 @@ static Bytes body_new_session_ticket(W &w, Tape &t) {
     });
     return w.out;
 }
+// ServerHello / HelloRetryRequest as seen by a client: the fixed part of the honest message, then a generated extension block
+static Bytes body_server_hello(W &w, Tape &t, const Bytes &honest, bool hrr) {
+    size_t sid = honest.size() > 34 ? honest[34] : 0, fixed = 2 + 32 + 1 + sid + 2 + 1;
+    if (honest.size() < fixed + 2) { w.raw(honest); return w.out; }
+    Bytes head(honest.begin(), honest.begin() + fixed), share; unsigned group = 0x001d;
+    for (size_t o = fixed + 2; o + 4 <= honest.size();) { unsigned ty = honest[o] << 8 | honest[o + 1]; size_t l = (size_t) (honest[o + 2] << 8 | honest[o + 3]); if (o + 4 + l > honest.size()) break;
+        if (ty == 51 && l >= 2) { group = honest[o + 4] << 8 | honest[o + 5]; if (l > 4) share.assign(honest.begin() + o + 8, honest.begin() + o + 4 + l); } o += 4 + l; }
+    if (t.chance(1, 8)) { size_t k = t.below(3); if (k == 0) head[1] = (uint8_t) t.pick(std::vector<unsigned>{ 2, 4, 0 }); else if (k == 1) { head[fixed - 3] = 0x13; head[fixed - 2] = (uint8_t) t.pick(std::vector<unsigned>{ 2, 3, 4, 0xff }); } else head[fixed - 1] = 1; }
+    w.raw(head);
+    auto ext_versions = [&]() { w.u16(43); VEC(w, 2, { switch (t.below(7)) { case 0: case 1: case 2: w.u16(0x0304); break; case 3: w.u16(t.pick(std::vector<unsigned>{ 0x0303, 0x0305, 0x7f1c, 0 })); break; case 4: w.u8(3); break; case 5: w.u16(0x0304); w.u8(4); break; default: break; } }); };
+    auto ext_share = [&]() { w.u16(51); VEC(w, 2, { w.u16(t.chance(3, 4) ? group : t.pick(std::vector<unsigned>{ 0x17, 0x1d, 0x18, 0x19, 0x100, 0, 0xffff }));
+        if (!hrr || t.chance(1, 4)) VEC(w, 2, { switch (t.below(6)) { case 0: case 1: case 2: w.raw(share); break; case 3: break; default: w.fill(t.pick(std::vector<size_t>{ 1, 31, 33, 64, 65, 66, 97, 133, 200 }), t.u8()); break; } }); }); };
+    VEC(w, 2, {
+        size_t last = w.out.size();
+        if (t.chance(3, 4)) { ext_versions(); last = w.out.size(); ext_share(); }
+        unsigned n = (unsigned) t.below(5);
+        for (unsigned i = 0; i < n; i++) {
+            size_t here = w.out.size();
+            switch (t.below(7)) {
+            case 0: ext_versions(); break;
+            case 1: ext_share(); break;
+            case 2: w.u16(44); VEC(w, 2, VEC(w, 2, w.fill(t.pick(std::vector<size_t>{ 32, 0, 1, 255, 4000, 20000, 65533, 65535 }), t.u8()))); break;   // cookie (legal in a HelloRetryRequest only)
+            case 3: w.u16(41); VEC(w, 2, { if (t.chance(3, 4)) w.u16(t.pick(std::vector<unsigned>{ 0, 1, 0xffff })); else w.u8(0); }); break;         // pre_shared_key: selected_identity
+            case 4: repeat_last(w, last); break;
+            default: gen_ext_generic(w, t); break;
+            }
+            last = here;
+        }
+    });
+    return w.out;
+}
 static Bytes body_key_update(W &w, Tape &t) {
     switch (t.below(7)) { case 0: w.u8(0); break; case 1: w.u8(1); break; case 2: w.u8(2); break; case 3: break; case 4: w.u8(0); w.u8(0); break; case 5: w.fill(40, 1); break; default: w.u8(255); break; }
     return w.out;
 }
 
 // ------------------------------------------------------------------------------------------------ one case
-enum Target { T_NONE, T_EE, T_CR, T_CERT, T_CV, T_FIN, T_NST, T_KU, T_EOED, T_N };
-static const char *tname[] = { "none", "EncryptedExtensions", "CertificateRequest", "Certificate", "CertificateVerify", "Finished", "NewSessionTicket", "KeyUpdate", "EndOfEarlyData" };
+enum Target { T_NONE, T_EE, T_CR, T_CERT, T_CV, T_FIN, T_NST, T_KU, T_EOED, T_SH, T_HRR, T_N };
+static const char *tname[] = { "none", "EncryptedExtensions", "CertificateRequest", "Certificate", "CertificateVerify", "Finished", "NewSessionTicket", "KeyUpdate", "EndOfEarlyData", "ServerHello", "HelloRetryRequest" };
 static int msg_of(int tg) {
     switch (tg) { case T_EE: return p13::M_ENCRYPTED_EXTENSIONS; case T_CR: return p13::M_CERTIFICATE_REQUEST; case T_CERT: return p13::M_CERTIFICATE; case T_CV: return p13::M_CERTIFICATE_VERIFY;
-                  case T_FIN: return p13::M_FINISHED; case T_NST: return p13::M_NEW_SESSION_TICKET; case T_KU: return p13::M_KEY_UPDATE; default: return p13::M_END_OF_EARLY_DATA; }
+                  case T_FIN: return p13::M_FINISHED; case T_NST: return p13::M_NEW_SESSION_TICKET; case T_KU: return p13::M_KEY_UPDATE; case T_SH: return p13::M_SERVER_HELLO; case T_HRR: return p13::M_HELLO_RETRY_REQUEST; default: return p13::M_END_OF_EARLY_DATA; }
 }
 static uint8_t type_of(int tg) {
     switch (tg) { case T_EE: return p13::HS_ENCRYPTED_EXTENSIONS; case T_CR: return p13::HS_CERTIFICATE_REQUEST; case T_CERT: return p13::HS_CERTIFICATE; case T_CV: return p13::HS_CERTIFICATE_VERIFY;
-                  case T_FIN: return p13::HS_FINISHED; case T_NST: return p13::HS_NEW_SESSION_TICKET; case T_KU: return p13::HS_KEY_UPDATE; default: return p13::HS_END_OF_EARLY_DATA; }
+                  case T_FIN: return p13::HS_FINISHED; case T_NST: return p13::HS_NEW_SESSION_TICKET; case T_KU: return p13::HS_KEY_UPDATE; case T_SH: case T_HRR: return p13::HS_SERVER_HELLO; default: return p13::HS_END_OF_EARLY_DATA; }
 }
-struct Plan { bool vclient = true; int cert = 0; bool cauth = false; bool x25519 = false; bool vsid = true; uint32_t seed = 1; int targets[2] = { T_NONE, T_NONE }; size_t chunk = (size_t) -1; };
+struct Plan { bool vclient = true; int cert = 0; bool cauth = false; bool x25519 = false; bool vsid = true; uint32_t seed = 1; int targets[2] = { T_NONE, T_NONE }; size_t chunk = (size_t) -1; bool hrr = false; /* client victim: honest HelloRetryRequest round */ };
 
 static bool is_dead(const Endpoint &V) { return V.failed || V.req_close || V.fatal_alert_recv >= 0; }
 
@@ -220,7 +251,10 @@ static bool run(Tape &t, Ctx &c, const Plan &pl, bool selftest) {
     Endpoint V; Config vc; vc.sid = sidg.s;
     vc.client = pl.vclient; vc.versions = { TLS13 }; vc.suites = { 0x1301 }; vc.auth = pl.cert ? AUTH_EC : AUTH_RSA; vc.client_auth = pl.cauth; vc.cert_cb = cb_strict; vc.entropy_stream = 1;
     bool x = pl.x25519; vc.tweak = [x](sslSessOpts_t &o) { if (x) { uint16_t g[2] = { 0x001d, 0x0017 }; matrixSslSessOptsSetKeyExGroups(&o, g, 2, 1); } };
-    p13::Config pc; pc.server = pl.vclient; pc.seed = 91 + pl.seed; pc.group = pl.x25519 ? p13::GROUP_X25519 : p13::GROUP_SECP256R1; pc.identity = ident(pl.vclient, pl.cert); pc.trace = c.verbose;
+    p13::Config pc; pc.server = pl.vclient; pc.seed = 91 + pl.seed; pc.group = pl.x25519 ? p13::GROUP_X25519 : p13::GROUP_SECP256R1;
+    const bool with_hrr = pl.vclient && (pl.hrr || pl.targets[0] == T_HRR || pl.targets[1] == T_HRR);
+    if (with_hrr) pc.group = pl.x25519 ? p13::GROUP_SECP256R1 : p13::GROUP_X25519;   // a HelloRetryRequest must ask for a group the client sent no share for
+    pc.identity = ident(pl.vclient, pl.cert); pc.trace = c.verbose;
     p13::Puppet P(pc);
     if (V.open(vc) < 0) throw Discard{};
 
@@ -238,7 +272,7 @@ static bool run(Tape &t, Ctx &c, const Plan &pl, bool selftest) {
 
     // ---- script
     std::vector<int> script;   // targets in sending order; honest unless selected
-    if (pl.vclient) { script = { T_NONE /* ServerHello */, T_EE }; if (pl.cauth || pl.targets[0] == T_CR || pl.targets[1] == T_CR) script.push_back(T_CR); script.insert(script.end(), { T_CERT, T_CV, T_FIN, T_NST, T_KU }); }
+    if (pl.vclient) { if (with_hrr) script.push_back(T_HRR); script.push_back(T_SH); script.push_back(T_EE); if (pl.cauth || pl.targets[0] == T_CR || pl.targets[1] == T_CR) script.push_back(T_CR); script.insert(script.end(), { T_CERT, T_CV, T_FIN, T_NST, T_KU }); }
     else { script = { T_NONE /* ClientHello */ }; if (pl.cauth) { script.push_back(T_CERT); script.push_back(T_CV); } if (pl.targets[0] == T_EOED || pl.targets[1] == T_EOED) script.push_back(T_EOED); script.insert(script.end(), { T_FIN, T_KU }); }
     bool hello_done = false; int nmut = 0; bool prev_joinable = false; Step held; bool have_held = false;
     auto send_step = [&](Step st) {   // one-step delay so that a mutated message can ask its honest predecessor to share the record
@@ -249,10 +283,11 @@ static bool run(Tape &t, Ctx &c, const Plan &pl, bool selftest) {
     for (size_t i = 0; i < script.size(); i++) {
         int tg = script[i];
         if (tg == T_NONE && !hello_done) { hello_done = true; send_step(Step(pl.vclient ? p13::M_SERVER_HELLO : p13::M_CLIENT_HELLO, p13::EP_PLAIN)); flush_held(); prev_joinable = false; continue; }
-        bool post = tg == T_NST || tg == T_KU;
+        bool post = tg == T_NST || tg == T_KU, hello = tg == T_SH || tg == T_HRR;
         bool mutate = (tg == pl.targets[0] || tg == pl.targets[1]);
+        if (hello && !mutate) { send_step(Step(msg_of(tg), p13::EP_PLAIN)); flush_held(); prev_joinable = false; continue; }
         if (post) { flush_held(); if (!mutate && tg == T_KU) continue; if (!V.hs_complete() || is_dead(V)) { if (mutate) c.count("target-not-reached"); continue; } }
-        int keys = post ? p13::EP_APP : p13::EP_HANDSHAKE;
+        int keys = hello ? p13::EP_PLAIN : post ? p13::EP_APP : p13::EP_HANDSHAKE;
         if (!mutate) { if (tg == T_EOED) continue; Step st(msg_of(tg), keys); send_step(st); prev_joinable = tg != T_FIN && !post; if (tg == T_FIN) flush_held(); continue; }
         // ---- the mutated message
         bool alive_before = V.ssl && !is_dead(V);
@@ -265,6 +300,7 @@ static bool run(Tape &t, Ctx &c, const Plan &pl, bool selftest) {
         case T_CERT: body = body_certificate(w, t, id, pl.vclient ? Bytes() : P.seen().cert_request_context); break;
         case T_CV: { if (have_held) { feed(P.emit(held)); have_held = false; } Bytes h = P.make_certificate_verify(id, 0, pl.vclient, P.transcript_hash()); body = body_certificate_verify(w, t, Bytes(h.begin() + 4, h.end())); break; }
         case T_FIN: { if (have_held) { feed(P.emit(held)); have_held = false; } feed(P.flush()); Bytes h = P.make_finished(pl.vclient, P.transcript_hash()); body = body_finished(w, t, Bytes(h.begin() + 4, h.end())); break; }
+        case T_SH: case T_HRR: { flush_held(); Bytes h = tg == T_SH ? P.make_server_hello() : P.make_hello_retry_request(pc.group); body = body_server_hello(w, t, Bytes(h.begin() + 4, h.end()), tg == T_HRR); break; }
         case T_NST: body = body_new_session_ticket(w, t); break;
         case T_KU: body = body_key_update(w, t); break;
         default: if (t.coin()) w.u8(0); body = w.out; break;
@@ -274,6 +310,7 @@ static bool run(Tape &t, Ctx &c, const Plan &pl, bool selftest) {
         if (t.chance(1, 8)) { size_t k = 1 + t.below(12); for (size_t j = 0; j < k; j++) body.push_back(t.u8()); ops += fmt(" trail+%zu", k); }
         if (t.chance(1, 6) && !body.empty()) { unsigned k = 1 + (unsigned) t.below(3); for (unsigned j = 0; j < k; j++) { size_t bit = t.u32() % (body.size() * 8); body[bit / 8] ^= (uint8_t) (1 << (bit % 8)); } ops += fmt(" flips=%u", k); }
         Step st(p13::M_RAW_HANDSHAKE, keys); st.raw_type = type_of(tg); st.payload = body;
+        if (hello) { st = Step(msg_of(tg), keys); st.body_override = body; st.use_body_override = true; }   // keeps the puppet's own key schedule / transcript handling of the hello
         if (t.chance(1, 10)) {   // inconsistent handshake header: hand-made message sent as inner type 22, transcript fed by hand
             Bytes m = p13::Puppet::hs_msg(type_of(tg), body); size_t L = body.size(), v = L;
             switch (t.below(4)) { case 0: v = L + 1 + t.below(40); break; case 1: v = L ? L - 1 - t.below(L) : 0; break; case 2: v = 0; break; default: v = 0xffffff; break; }
@@ -286,10 +323,10 @@ static bool run(Tape &t, Ctx &c, const Plan &pl, bool selftest) {
         if (have_held && prev_joinable && t.chance(1, 3)) { held.coalesce = true; ops += " +prev"; }
         else if (t.chance(1, 2)) {   // fragmented messages are reassembled in an exact-size heap block: that is where over-reads become visible
             st.max_frag = t.pick(std::vector<size_t>{ 16, 100, 5, 4, 1000, 1, 2, 3, 64, 16384 }); if (st.max_frag >= body.size() + 4 && body.size() > 8) st.max_frag = 4 + body.size() / 2; ops += fmt(" frag%zu", st.max_frag); }
-        bool join_next = tg != T_FIN && tg != T_KU && tg != T_EOED && !post && st.msg == p13::M_RAW_HANDSHAKE && st.max_frag == 0 && t.chance(1, 4);
+        bool join_next = tg != T_FIN && tg != T_KU && tg != T_EOED && !post && !hello && st.msg == p13::M_RAW_HANDSHAKE && st.max_frag == 0 && t.chance(1, 4);
         { static const char *cls[] = { " len@", " trunc@", " trail+", " flips=", " hdrlen:", " frag", " +prev" }; for (int k = 0; k < 7; k++) if (ops.find(cls[k]) != std::string::npos) opmask |= 1u << k; }
         mutdesc += fmt(" | mutated %s (%zu bytes):%s", tname[tg], body.size(), ops.c_str());
-        if (c.verbose) fprintf(stderr, "  mutation: %s\n", mutdesc.c_str());
+        if (c.verbose) fprintf(stderr, "  mutation: %s\n    body: %s\n", mutdesc.c_str(), hex(body.data(), body.size(), 120).c_str());
         nmut++; c.count(std::string("mutated:") + tname[tg]);
         send_step(st);
         if (join_next) { held.coalesce = true; prev_joinable = true; }
@@ -324,18 +361,19 @@ static bool run(Tape &t, Ctx &c, const Plan &pl, bool selftest) {
 
 static void selftest(Tape &t, Ctx &c) {
     static bool done = false; if (done) return; done = true;
-    for (int k = 0; k < 4; k++) { Plan pl; pl.vclient = k & 1; pl.cert = (k >> 1) & 1; pl.cauth = k >= 2; pl.x25519 = k & 1; pl.seed = 900 + k; uint8_t z[1] = { 0 }; Tape zt(z, 0); (void) t; run(zt, c, pl, true); }
+    for (int k = 0; k < 5; k++) { Plan pl; pl.hrr = k == 4; pl.vclient = (k & 1) || k == 4; pl.cert = (k >> 1) & 1; pl.cauth = k >= 2; pl.x25519 = k & 1; pl.seed = 900 + k; uint8_t z[1] = { 0 }; Tape zt(z, 0); (void) t; run(zt, c, pl, true); }
 }
 
 static void prop(Tape &t, Ctx &c) {
     selftest(t, c);
     Plan pl;
     pl.vclient = !t.coin(); pl.cert = t.coin(); pl.x25519 = t.coin(); pl.cauth = t.chance(1, 3); pl.vsid = !t.chance(1, 4); pl.seed = 1 + t.u16();
-    static const int ct[] = { T_EE, T_CR, T_CR, T_CERT, T_CERT, T_CV, T_FIN, T_NST, T_NST, T_KU }, st[] = { T_CERT, T_CERT, T_CV, T_FIN, T_KU, T_EOED };
+    static const int ct[] = { T_EE, T_CR, T_CR, T_CERT, T_CERT, T_CV, T_FIN, T_NST, T_NST, T_KU, T_SH, T_SH, T_HRR, T_HRR }, st[] = { T_CERT, T_CERT, T_CV, T_FIN, T_KU, T_EOED };
     unsigned sel = (unsigned) t.below(16);
     int nm = sel == 0 ? 0 : sel < 13 ? 1 : 2;
-    for (int i = 0; i < nm; i++) pl.targets[i] = pl.vclient ? ct[t.below(10)] : st[t.below(6)];
+    for (int i = 0; i < nm; i++) pl.targets[i] = pl.vclient ? ct[t.below(14)] : st[t.below(6)];
     if (!pl.vclient && (pl.targets[0] == T_CERT || pl.targets[0] == T_CV || pl.targets[1] == T_CERT || pl.targets[1] == T_CV)) pl.cauth = true;
+    pl.hrr = pl.vclient && t.chance(1, 6);
     pl.chunk = t.chance(1, 4) ? (size_t) t.pick(std::vector<size_t>{ 1, 3, 17, 100, 1000 }) : (size_t) -1;
     run(t, c, pl, false);
 }
